@@ -36,12 +36,16 @@ def gen_cfg(rng, mode):
 def dims(rng, d):
     """dimensions of the way the breaker is built and operated (harness/src/mw_circuit.rs):
     `listen=0` — no event listener at all is registered (30 %): the log has no `transition` lines, the breaker is observed
-    through results, probes and inner calls only;
+    through results, probes and inner calls only; `listen=2` (a quarter of the others) — the `on_state_transition` listener reads
+    `state_sync()` of its breaker INSIDE its callback and logs what it read (`transition a b sync=x`): `transition_to` announces
+    the transition before it applies it, so the listener still reads the state the breaker is leaving;
     `early=k` (with a fallback, 50 %) — bit 0: manual overrides and probes go through a clone of the plain breaker taken BEFORE
     `with_fallback` (an operator's / health check's handle); bit 1: the fallback is attached when the first request arrives,
     overrides issued before that act on the plain breaker"""
     if rng.random() < 0.3:
         d["listen"] = 0
+    elif rng.random() < 0.25:
+        d["listen"] = 2
     if d.get("fallback") and rng.random() < 0.5:
         d["early"] = rng.choice([1, 2, 3])
     return d
@@ -226,8 +230,8 @@ def cfgof(case):
             elif a in ("cls", "clsr"):
                 eff["cls"] = b
                 eff["clsr"] = "1" if a == "clsr" else "0"
-            elif it == "lis:tr":
-                eff["listen"] = "1"
+            elif it in ("lis:tr", "lis:trs"):
+                eff["listen"] = "2" if it == "lis:trs" else "1"
         if eff.get("wtype") != "time":
             eff.pop("wtype", None)
         if "slow" in eff:
@@ -254,7 +258,7 @@ def to_chain(rng, hdr):
             # the harness default of the classic header
             items.append("%s:%s" % (item, {"fr": "1/2", "size": "10", "wait": "1000", "permitted": "1"}[key]))
     if k.get("listen", "1") != "0":
-        items.append("lis:tr")
+        items.append("lis:trs" if k.get("listen") == "2" else "lis:tr")
     if k.get("wtype") == "time":
         items += ["wtype:time", "wdur:%s" % k.get("wdur", "1000")]
     if "min" in k:
@@ -480,7 +484,7 @@ def gen_boundary(rng, tier):
             d["slow"], d["sr"] = S, other
     d["cls"] = 0
     if rng.random() < 0.3:
-        d["listen"] = 0
+        d["listen"] = rng.choice([0, 0, 2])
     variant = rng.choice(["at", "at", "below", "above", "slide", "slide"])
     m = {"at": k, "below": k - 1, "above": min(n, k + 1), "slide": k - 1}[variant]
     m = max(0, m)
@@ -886,7 +890,7 @@ def gen_preset(rng, tier):
     if rng.random() < 0.3:
         d["cls"] = rng.choice([1, 2])
     if rng.random() < 0.25:
-        d["listen"] = 0
+        d["listen"] = rng.choice([0, 0, 2])
     if rng.random() < 0.2:
         d["fallback"] = 1
     for a in ("fr", "size", "wait", "permitted"):
@@ -936,7 +940,7 @@ def gen_preset_halfopen(rng, tier):
     if rng.random() < 0.5:
         W = d["wait"] = rng.choice([10, 50])
     if rng.random() < 0.3:
-        d["listen"] = 0
+        d["listen"] = rng.choice([0, 0, 2])
     if rng.random() < 0.3:
         d["fallback"] = 1
     ops = ["manual force_open", "adv %d" % (W - 1), "arrive 1 inner=0:ok", "poll 1", "adv 1"]
@@ -1813,6 +1817,8 @@ def build_tags(case, lines, multi):
             tags.append("chain-default-minimum")
         if len(set(keys)) < len(keys):
             tags.append("chain-overridden-setter")
+    if any(" sync=" in l and tparse(l)[1][:1] == ["transition"] for l in lines):
+        tags.append("listener-reads-lockfree-view")
     if multi:
         tags.append("services-several")
     if any(" h=" in o for o in case["ops"]):
@@ -1871,7 +1877,7 @@ TR_BOUNDARY = ["trip-rate-equals-threshold", "closed-one-below-threshold"]
 TR_BUILD = ["preset-standard", "preset-fast_fail", "preset-tolerant", "preset-fn", "preset-builder", "via-layer", "via-for_request", "via-layer_fn",
             "chain", "chain-cls-before-size", "chain-cls-after-size", "chain-clsr-before-size", "chain-clsr-after-size", "chain-default-minimum",
             "chain-overridden-setter", "services-several", "handle-reused", "health-trigger_unhealthy", "health-trigger_healthy", "health-task-scheduled",
-            "admitted-before-health-task-ran", "probe-before-health-task-ran"]
+            "admitted-before-health-task-ran", "probe-before-health-task-ran", "listener-reads-lockfree-view"]
 TR_READY = ["first-poll-while-inner-not-ready", "result-notready", "result-readiness-error", "manual-inner_down", "manual-inner_up", "manual-inner_fail"]
 TR_TEARDOWN = ["teardown-arrival-rejected", "teardown-arrival-admitted"]
 TR_EPISODES = ["leftover-dropped-while-full", "leftover-completed-while-full", "trial-dropped",
@@ -1888,8 +1894,8 @@ COMMON = {
     "transitions": transitions,
     "nontrivial": nontrivial,
     "all_transitions": ALL_TR,
-    "model_modules": ["TR.Model.Circuit", "TR.Lemmas.Circuit", "TR.Lemmas.CircuitState", "TR.Lemmas.CircuitWindow", "TR.Lemmas.CircuitRefine", "TR.Spec.Breaker"],
-    "lean_files": ["TR.Model.Circuit", "TR.Lemmas.Circuit", "TR.Lemmas.CircuitState", "TR.Lemmas.CircuitWindow", "TR.Lemmas.CircuitRefine", "TR.Spec.Breaker"],
+    "model_modules": ["TR.Model.Circuit", "TR.Lemmas.Circuit", "TR.Lemmas.CircuitState", "TR.Lemmas.CircuitWindow", "TR.Lemmas.CircuitRefine", "TR.Lemmas.CircuitTrace", "TR.Lemmas.CircuitEmbed", "TR.Spec.Breaker"],
+    "lean_files": ["TR.Model.Circuit", "TR.Lemmas.Circuit", "TR.Lemmas.CircuitState", "TR.Lemmas.CircuitWindow", "TR.Lemmas.CircuitRefine", "TR.Lemmas.CircuitTrace", "TR.Lemmas.CircuitEmbed", "TR.Spec.Breaker"],
     "sizes": (400, 20000),
     "trusted": ["transcription of Circuit / CircuitBreaker::call / the config builder / health_integration.rs in TR.Model.Circuit (sampled by the correspondence check)",
                 "tasks spawned by the health triggers run on a runtime of their own, driven only by `manual yield` (harness/src/mw_circuit.rs: Tasks)",
@@ -1910,7 +1916,8 @@ SPECS = {
                      "readiness between poll_ready and the first poll of the call future, the breaker opening, the service coming back (manual inner_down / inner_fail / "
                      "inner_up); 40%: the configuration written as the builder chain itself (setters in any order, classifier setters before / after the window size, "
                      "overridden setters), presets, circuit_breaker_builder(), Layer::layer / layer_fn / for_request; 10%: a second / third service made from the same "
-                     "layer value (svc=k); 15%: persistent handles reused for several calls (h=j); "
+                     "layer value (svc=k); 15%: persistent handles reused for several calls (h=j); 17%: the on_state_transition listener reads state_sync() inside its "
+                     "callback and logs it (listen=2 / lis:trs); "
                      "distinct = distinct implementation log; non-trivial = >= 2 state transitions",
                 level_text="Theorems TR.Props.C03.*: in every reachable state and for every step, an inner call is started only if the breaker "
                            "was not open before the admission or wait_duration_in_open had elapsed (and it first moved to half-open); a rejected "
@@ -1919,7 +1926,12 @@ SPECS = {
                            "a health trigger changes nothing until its task is scheduled and is then exactly the override (so whoever sees the lock-free view open is "
                            "shielded: lockfree_view_open_shields, status_accessors_agree); admission and the start of the inner call are one step whatever the readiness "
                            "of the wrapped service (admitted_call_starts_at_once), a request arriving while it is not ready never reaches the breaker; services made from "
-                           "one layer are independent breakers, each a run of the single-breaker model (services_are_independent, open_shields_per_service)."),
+                           "one layer are independent breakers, each a run of the single-breaker model (services_are_independent, open_shields_per_service). "
+                           "Trace level (every event-level prefix of every reachable log, Lemmas/CircuitTrace.lean): after a ->open transition event at t0 no inner_call "
+                           "event until the next transition event, which leaves open for half-open at >= t0 + wait or for closed right after manual force_closed / reset / "
+                           "yield (open_window, open_interval, open_shields_every_prefix, observed_open_has_its_event, log_only_grows); one poll may go open -> half-open -> "
+                           "open and does start an inner call, between two transition events (no_inner_call_while_no_transition); calls admitted earlier complete while open "
+                           "(running_completes_while_open); a listener reading state_sync() in its callback reads the state being left (listener_sees_state_before_transition)."),
     "C04": dict(COMMON, module="TR.Props.C04", gen=gen_c04, all_transitions=ALL_TR + TR_BOUNDARY + TR_BUILD,
                 monitors=[("c04-documented-machine", per_service(mon_c04)), ("c04-halfopen-trials", per_service(mon_c09))],
                 rule="sequential histories (length 10..300) over success/failure/slow success/slow failure/wait/force_open/force_closed/reset with "
@@ -1937,7 +1949,12 @@ SPECS = {
                            "a rate exactly equal to the threshold trips, one below stays closed (exact rational comparison); "
                            "reset empties the window; all views (state, state_sync, is_open, metrics, http_status, health_status) are the same function of the state; "
                            "the builder: an unset minimum_number_of_calls is the FINAL window size wherever the classifier setter stands "
-                           "(builder_minimum_defaults_to_final_window, classifier_setter_commutes), the setting given last wins, the presets are their documented values."),
+                           "(builder_minimum_defaults_to_final_window, classifier_setter_commutes), the setting given last wins, the presets are their documented values. "
+                           "Whole sequential histories: the FULL model run on the operations of a sequential client (arrive / poll / adv / poll per call) ends in the circuit "
+                           "the sequential driver computes (seq_embeds) whose abstraction is the documented machine on the same history (refines_run); metrics(): count-based = "
+                           "counts over the documented window, time-based = the documented window plus expired records not pruned yet, exact right after a recording "
+                           "(metrics_match_window, metrics_time_window, metrics_exact_after_record); inside an on_state_transition callback the lock-free view still shows the "
+                           "state being left (listener_view_lags); the recorded duration holds for failures too (recorded_duration)."),
     "C09": dict(COMMON, module="TR.Props.C09", gen=gen_c09, all_transitions=ALL_TR + TR_TEARDOWN + TR_EPISODES + TR_BUILD + TR_READY,
                 monitors=[("c09-halfopen-trials", per_service(mon_c09)), ("c09-excess-answered-at-once", per_service(mon_at_once))],
                 rule="breaker driven to half-open, then many callers arriving together with slow trial calls, mixed outcomes, drops and panics of "
@@ -1949,5 +1966,10 @@ SPECS = {
                            "half_open_admitted <= permitted; excess callers are rejected in the same step; no wedge: when no trial of the episode is in flight a slot is free; "
                            "every taken slot belongs to a live (or succeeded) trial of the current episode, overrides never rewind the episode counter, cancelling a leftover frees nothing; "
                            "a caller arriving during the tear-down of a cancelled trial (before its drop) is rejected when all slots are taken; a rejected caller "
-                           "leaves the breaker untouched, so the next caller is rejected as well (rejected_caller_frees_nothing); each service made from a layer counts its own trials."),
+                           "leaves the breaker untouched, so the next caller is rejected as well (rejected_caller_frees_nothing); each service made from a layer counts its own trials. "
+                           "Over the log alone: the ghost `released` is the number of trials of the episode the log shows cancelled (inner_drop) or panicked "
+                           "(released_is_cancelled_since); in every event-level prefix whose last transition went to half-open, inner calls since minus those cancelled <= permitted "
+                           "(trials_bounded_every_prefix, trials_in_flight_bounded_log); without drop operations and panicking scripts nothing is released and inner calls per "
+                           "episode <= permitted (trials_bounded_no_cancellations); the decision counts successes of leftover calls too (half_open_decision); a release lost by "
+                           "TrialGuard::drop's bounded try_lock spin admits nobody more but leaks the slot (lost_release_admits_nobody; modelled, not verified)."),
 }
